@@ -69,6 +69,20 @@ def gen(rng, i, quick):
                 ops.append({"op": "clear", "who": m, "observe": m})
                 wops.append(f"WClear {NAMES3.index(m)}")
                 meta.append(len(ops) - 1)
+                # ... and build another commit in the same epoch: two own commits of one epoch are on the
+                # wire, the delivery service may pick the cleared one and echo it to its author
+                if rng.chance(1, 2) and not reinit and not det:
+                    cid += 1
+                    pl2 = rng.chance(1, 3)
+                    ops.append({"op": "opts", "who": m, "path_required": not pl2, "encrypt_controls": enc})
+                    o2 = {"op": "commit", "who": m, "id": f"c{cid}", "observe": m}
+                    if pl2:
+                        o2["psk"] = ["aa01"]
+                    ops.append(o2)
+                    wops.append(f"WBuild {NAMES3.index(m)} {cid} false false {'false' if (pl2 and not enc) else 'true'}")
+                    meta.append(len(ops) - 1)
+                    built[m].append(cid)
+                    allc.append(cid)
         # application traffic inside the epoch, read by members with a pending commit
         if rng.chance(2, 3):
             s, t = rng.shuffle(NAMES3)[:2]
